@@ -2,8 +2,9 @@
 
 Contracts.  kappa(state) is the continue predicate `condition.setup(..)(state, config, objects)`.
 
-  for every condition class (after setup; T = config.time_steps_total, min <= max assumed where a
-  minimum exists, otherwise the two promises of the property contradict each other):
+  for every condition class (after setup; T = config.time_steps_total; NO ordering of min_steps and
+  max_steps is assumed - where min_steps > max_steps, e.g. a user max_steps below the default minimum,
+  the maximum is the documented hard cut-off and "never before its minimum" binds only below it):
      for step counters t < T (beyond T the loop bound has already stopped the run):
      (a)  kappa  ==>  t < condition.max_steps                          "never later than its maximum"
      (b)  t < min_steps /\\ t < max_steps  ==>  kappa                   "never before its minimum"
@@ -52,7 +53,6 @@ STUBS = P5.STUBS + [
     "jnp.fft.rfft: arbitrary complex spectrum of the documented length (so `converged` is an arbitrary boolean of the trace)",
 ]
 ASSUMPTIONS = [
-    "min_steps <= max_steps for conditions with a minimum (otherwise 'never before min' and 'never after max' contradict each other)",
     "DetectorConvergenceCondition: samples-per-period and prev_periods enumerated (spp in {1,2,3,5}, prev_periods in {1,2,4}); step counts, bounds, threshold, detector trace symbolic",
     "the loop primitive stops at the first step at which its cond_fun is false (assumed contract, see STUBS)",
 ]
@@ -62,7 +62,7 @@ LEVEL_TEXT = (
     "TimeStepCondition / EnergyThresholdCondition / DetectorConvergenceCondition, and of the loop wiring of run_fdtd(stopping_condition=...) (guard = the set-up condition, "
     "bound = T, same body and reset start state as a plain run) under the documented contract of the loop primitive"
 )
-LEVEL_NOTE = "energy functional and FFT abstracted (uninterpreted); loop primitive by assumed contract; precondition min_steps <= max_steps"
+LEVEL_NOTE = "energy functional and FFT abstracted (uninterpreted); loop primitive by assumed contract"
 EXPLANATION = "DetectorConvergenceCondition.__call__ ignores max_steps: obligations kappa/Detector*/(a),(c) and run/Detector*/final_step<=max_steps are refuted on the unchanged tree (genuine defect, see replay)"
 
 
@@ -225,7 +225,6 @@ def _kappa_energy(defaults):
                 c.prove("EnergyThreshold/setup:default_min_steps==round(0.1*T)", (cond.min_steps - T * Fraction(0.1) <= Fraction(1, 2)) & (T * Fraction(0.1) - cond.min_steps <= Fraction(1, 2)))
             else:
                 c.prove("EnergyThreshold/setup:keeps_user_bounds", TL.same_num(cond.max_steps, mx) and TL.same_num(cond.min_steps, mn))
-                c.assume((cond.min_steps <= cond.max_steps).z if isinstance(cond.min_steps <= cond.max_steps, SymBool) else bool(cond.min_steps <= cond.max_steps))
             c.cover("pre")
             k = TL.as_cond(cond(state, cfg, objs))
             ok = c.prove("EnergyThreshold/energy_evaluated_once_on_the_state", len(env.energies) == 1)
@@ -287,8 +286,6 @@ def _kappa_detector(spp, prev, defaults):
                 c.prove("DetectorConvergence/setup:default_min_steps==(prev_periods+1)*spp", v_eq(cond.min_steps, (prev + 1) * spp))
             else:
                 c.prove("DetectorConvergence/setup:keeps_user_bounds", TL.same_num(cond.max_steps, mx) and TL.same_num(cond.min_steps, mn))
-            le = cond.min_steps <= cond.max_steps
-            c.assume(le.z if isinstance(le, SymBool) else bool(le))
             c.cover("pre")
             k = TL.as_cond(cond(state, cfg, objs))
             ok = c.prove("DetectorConvergence/one_convergence_test", len(env.tests) == 1)
@@ -408,8 +405,6 @@ def _end_to_end(kind, spp=2, prev=1, defaults=False):
             cfg, cond0, thr, mn, mx = _detector_condition(inp, T, spp, prev, defaults)
         objs = scene.make_objects(shape, cfg)
         name = "EnergyThreshold" if kind == "energy" else f"DetectorConvergence(spp={spp},prev={prev})"
-        if mn is not None and mx is not None:
-            c.assume((mn <= mx).z)
         with P5.sym_total_steps(T), _cond_env(), TL.LoopHarness() as L:
             c.cover("pre")
             try:
@@ -429,7 +424,8 @@ def _end_to_end(kind, spp=2, prev=1, defaults=False):
         ok = c.prove(f"run/{name}/guard_is_the_setup_condition", type(ready) is type(cond0) and ready.max_steps is not None and ready.min_steps is not None)
         if not ok:
             return
-        c.prove(f"run/{name}/min_steps<=max_steps(after_setup)", ready.min_steps <= ready.max_steps)
+        if defaults:
+            c.prove(f"run/{name}/min_steps<=max_steps(after_setup,defaults)", ready.min_steps <= ready.max_steps)
         tf = TL.scalar(res[0])
         n = calls[0]["n"]
         inp.scalar("final_step", tf)
@@ -523,9 +519,9 @@ def _replay(key, obligation, witness):
         need = (prev + 1) * spp
         trials = []
         mxw, mnw = sc.get("max_steps", sc.get("max_steps_effective")), sc.get("min_steps", sc.get("min_steps_effective"))
-        if isinstance(mxw, int) and isinstance(mnw, int) and need <= mnw <= mxw < T:
+        if isinstance(mxw, int) and isinstance(mnw, int) and need <= mnw < T and 0 <= mxw < T:
             trials.append((mnw, mxw))
-        trials += [(need, need + 1), (need + 2, need + 5)]
+        trials += [(need, need + 1), (need + 2, need + 5), (need + 4, need + 1)]
         for mn, mx in trials:
 
             def fac(cfg, mn=mn, mx=mx):
@@ -540,11 +536,11 @@ def _replay(key, obligation, witness):
                 break
     else:
         mxw, mnw = sc.get("max_steps", 7), sc.get("min_steps", 3)
-        if not (isinstance(mxw, int) and isinstance(mnw, int) and 0 <= mnw <= mxw <= T):
+        if not (isinstance(mxw, int) and isinstance(mnw, int) and 0 <= mnw <= T and 0 <= mxw <= T):
             mnw, mxw = 3, 7
-        for thr, mn, mx in ((1e30, mnw, mxw), (1e-300, mnw, mxw)):
+        for thr, mn, mx in ((1e30, mnw, mxw), (1e-300, mnw, mxw), (1e30, 9, 5), (1e-300, 9, 5)):
             t, arr, cfg, oc, arrays, k = _real_run(lambda cfg: EnergyThresholdCondition(threshold=thr, min_steps=mn, max_steps=mx), T)
-            exp = mn if thr > 1 else mx
+            exp = min(mn, mx) if thr > 1 else mx
             tp, sp = F.custom_fdtd_forward(arrays, oc, cfg, k, reset_container=True, record_detectors=True, start_time=0, end_time=t, show_progress=False)
             d = max(P5._rel(arr.fields.E, sp.fields.E), P5._rel(arr.fields.H, sp.fields.H), P5._rel(arr.detector_states["energy"]["energy"], sp.detector_states["energy"]["energy"]))
             details.append(f"EnergyThresholdCondition(threshold={thr}, min_steps={mn}, max_steps={mx}), T={cfg.time_steps_total}: halted at {t} (contract: {exp}); rel. diff to a plain run of {t} steps {d:.2e}")
